@@ -158,7 +158,8 @@ def Pattern.search (p : Pattern) (s : String) : Bool :=
 
 inductive ValuesParam where
   | none                    -- no `values` key (or `None`)
-  | list (l : List Val)     -- a list / tuple
+  | list (l : List Val)     -- a `list` (unhashable: see `GlobalFilterModel.addFilter`)
+  | tuple (l : List Val)    -- a `tuple`
   | scalar (v : Val)        -- any other object
   deriving DecidableEq, Repr, Inhabited
 
@@ -230,6 +231,7 @@ def RawFilter.parse (f : RawFilter) : Except Err Filter :=
     match f.values with
     | .none => .error .valueError
     | .list l => .ok (.isin l)
+    | .tuple l => .ok (.isin l)
     | .scalar v => .ok (.isin [v])
   | .do_custom_filter => .error .notImplemented
 
@@ -319,6 +321,7 @@ def doIsin (f : RawFilter) (rows : List Row) : Except Err (List Row) :=
   match f.values with
   | .none => .error .valueError
   | .list l => .ok (rows.filter (fun r => l.any (pyEq (r.get f.col))))
+  | .tuple l => .ok (rows.filter (fun r => l.any (pyEq (r.get f.col))))
   | .scalar v => .ok (rows.filter (fun r => [v].any (pyEq (r.get f.col))))
 
 /-- `BaseFilterEngine.do_filter` with the dispatch table regenerated from the code (`Gen.filterDispatch`).
@@ -443,6 +446,7 @@ def doIsin (f : RawFilter) (ct : ColClass) (rows : List Row) : Except Err (List 
   match f.values with
   | .none => .error .valueError
   | .list l => isinList l f ct rows
+  | .tuple l => isinList l f ct rows
   | .scalar (.str s) => isinList (s.toList.map (fun c => Val.str (String.singleton c))) f ct rows  -- `pa.array("ab")` iterates
   | .scalar _ => .error .typeError
 
@@ -538,6 +542,7 @@ def doIsin (f : RawFilter) (strIndex : Bool) (ct : ColClass) (rows : List Row) :
   match f.values with
   | .none => .error .valueError
   | .list l => if strIndex then .error .keyError else .ok (rows.filter (fun r => isinCell ct l (r.get f.col)))
+  | .tuple l => if strIndex then .error .keyError else .ok (rows.filter (fun r => isinCell ct l (r.get f.col)))
   | .scalar _ => if strIndex then .error .keyError else .error .typeError
 
 def doFilter (f : RawFilter) (strIndex : Bool) (ct : ColClass) (rows : List Row) : Except Err (List Row) :=
@@ -590,6 +595,36 @@ rows produced by `calculate_feature` -/
 def runGroup (eng : Engine) (requested supported : List String) (gf : List RawFilter) (rows : List Row) :
     Except Err (List Row) :=
   applyAll eng (groupExposed requested supported gf) (some (groupFilters supported gf)) rows
+
+/-- `GlobalFilter.add_filter`: `self.filters` is a `set`, `SingleFilter.__hash__` hashes the parameter tuple - a `list`
+among the parameter values makes that raise `TypeError: unhashable type: 'list'`. Equal filters collapse (set). -/
+def addFilter (gf : List RawFilter) (f : RawFilter) : Except Err (List RawFilter) :=
+  match f.values with
+  | .list _ => .error .typeError
+  | _ => .ok (if gf.contains f then gf else gf ++ [f])
+
+def addFilters : List RawFilter → List RawFilter → Except Err (List RawFilter)
+  | gf, [] => .ok gf
+  | gf, f :: fs =>
+    match addFilter gf f with
+    | .error e => .error e
+    | .ok gf' => addFilters gf' fs
+
+/-- `PythonDictFramework.set_column_names`, called by `run_calculation` right after the final filter: a list with no row
+is rejected (`ValueError: Data is empty or not in expected format`). The other two frameworks have empty tables. -/
+def pyDictFinish (rows : List Row) : Except Err (List Row) :=
+  if rows.isEmpty then .error .valueError else .ok rows
+
+/-- `run_all(..., global_filter=gf)` seen from one feature group: build the global filter, `runGroup`, then the
+framework's own post-processing `finish` (`pyDictFinish` on PythonDict, `Except.ok` elsewhere) -/
+def runGroupApi (eng : Engine) (finish : List Row → Except Err (List Row)) (requested supported : List String)
+    (added : List RawFilter) (rows : List Row) : Except Err (List Row) :=
+  match addFilters [] added with
+  | .error e => .error e
+  | .ok gf =>
+    match runGroup eng requested supported gf rows with
+    | .error e => .error e
+    | .ok out => finish out
 
 /-- the specification of a raw filter on a cell: parse, then `sat`; an unusable filter is satisfied by nothing -/
 def satRaw (f : RawFilter) (x : Val) : Bool :=
